@@ -75,7 +75,18 @@ func runSchedules(a CLIArgs) int {
 		for _, n := range sf.Nodes {
 			d.Apply(Action{Op: "NodeAdd", N: n, V: strings.Join(sf.Tmpls, ","), W: "c;z=z1"})
 		}
+		if sf.Config == "migration" {
+			// every node starts with a ready pod of the DaemonSet "old"; the ExtendedDaemonSet declares the migration
+			d.Apply(Action{Op: "CreateDaemonSet", Key: Key, V: "old"})
+			for _, n := range sf.Nodes {
+				d.Apply(Action{Op: "ForeignPod", Key: Key, N: n, V: "ds", W: "old"})
+			}
+			d.Apply(Action{Op: "KRound"})
+		}
 		d.Apply(Action{Op: "CreateEDS", Key: Key, T: sf.Tmpls[0]})
+		if sf.Config == "migration" {
+			d.Apply(Action{Op: "SetAnnotation", Key: Key, V: "old-ds", W: "old"})
+		}
 		if sf.Config == "canary" {
 			_ = d.C.MutateEDS("ns1", "foo", func(e *edsv1.ExtendedDaemonSet) {
 				zero, one := int32(0), int32(1)
